@@ -1,4 +1,6 @@
 SPECIFICATION Spec
-CONSTANT MaxOps = 2
+CONSTANTS MaxFlat = 2
+ Pairs = "cover"
+ Seed = 1
 INVARIANT Emit
 CHECK_DEADLOCK FALSE
